@@ -546,8 +546,9 @@ def _ikron_kinds(dims, blocks, fmts_by_start, sparse_flag):
 
 @driver("C15", "ikron-embedding", chunks=8, timeout=200,
         bound="dimension lists: all lists over {1,2,3} of length 1..4 plus 16 hand-picked (dims up to 8, 5 subsystems, single "
-              "subsystem), total dimension 2..64; placements: one op on one site, one op overlaid on a contiguous run (index "
-              "set in any order), overlay over a range with gaps, one op repeated, 2 ops cyclically on 3 sites, one op per site "
+              "subsystem), total dimension 2..64; placements: one op on one site, one op (larger than 1x1) overlaid on a "
+              "contiguous run (index set in any order), overlay over a range with gaps (first site of dimension > 1, the form "
+              "ham_j1j2 uses), one op repeated, 2 ops cyclically on 3 sites, one op per site "
               "in arbitrary order, dims of -1 at the targets; op formats dense/qarray/csr/csc/coo/bsr x sparse in "
               "{None,True,False} x stype x coo_build x parallel x random ownership ranges; 4 dtypes; plus every ownership range "
               "for 6 placements with D <= 36")
@@ -1182,17 +1183,18 @@ def _three(x):
 
 
 @driver("C15", "hamiltonians-ownership", chunks=8, timeout=240,
-        bound="ham_heis / ham_ising / ham_XY / ham_XXZ / ham_j1j2 / ham_mbl for n = 2..5 spins (j1j2: n >= 3; quick: n <= 4), "
+        bound="ham_heis / ham_ising / ham_XY / ham_XXZ / ham_j1j2 / ham_mbl for n = 2..5 spins (j1j2: n >= 3), "
               "ham_heis_2D on 1x2..2x3 lattices (cyclic only with both extents >= 2); scalar and 3-vector couplings / fields "
               "incl. zeros, cyclic or open, sparse True/False, stype csr/csc/coo/bsr, parallel; full matrix == explicit sum of "
-              "Kronecker products of spin-1/2 matrices; EVERY ownership range for D <= 32 (16 in quick), random ranges for D = 64")
+              "Kronecker products of spin-1/2 matrices; EVERY ownership range for D <= 32 (quick: D <= 8, 12 random ranges above), "
+              "40 random ranges for D = 64")
 def hamiltonians(cx):
     import scipy.sparse as sp
 
     import quimb as qu
 
     rng = cx.rng
-    nmax = 4 if cx.quick else 5
+    nmax = 5
     configs = []
     for n in range(2, nmax + 1):
         for cyclic in (False, True):
